@@ -189,7 +189,7 @@ fn scan(p: &Pipe) -> Option<(&'static str, usize)> {
                     // an untrusted iterator may announce a loose bound; nothing to hold it to
                     false
                 } else if o.capped { matches!(o.hint.1, Some(hi) if hi < got) } else { o.hint.1 != Some(got) };
-                if bad {
+                if bad || (!o.plain && !o.capped && matches!(o.tl_len, Some(l) if l != got)) {
                     return Some(("H1", cut));
                 }
             },
@@ -218,6 +218,41 @@ fn blame(p: &Pipe, cut: usize, oracle: &'static str) -> String {
         }
     }
     stage_at(p, cut)
+}
+
+/// innermost stage whose stream already disagrees under the program's consuming terminal
+fn blame_terminal(p: &Pipe) -> String {
+    let wraps: Vec<usize> = (0..p.ops.len()).filter(|i| matches!(p.ops[*i], Op::Wrap(_))).collect();
+    for keep in 0..wraps.len() {
+        let mut q = p.clone();
+        q.ops = p
+            .ops
+            .iter()
+            .enumerate()
+            .filter(|(i, op)| !matches!(op, Op::Wrap(_)) || wraps[..keep].contains(i))
+            .map(|(_, op)| op.clone())
+            .collect();
+        let n = q.ops.len();
+        let Ok(pr) = probe(&q, n) else { continue };
+        if pr.capped {
+            continue;
+        }
+        let Ok(c) = commit(&q, pr.drained.len()) else { continue };
+        let ok = match &c.sink {
+            SinkOut::Counted(k) => *k == pr.drained.len(),
+            SinkOut::Last(l) => match (l, pr.drained.last()) {
+                (None, None) => true,
+                (Some(a), Some(b)) => a.same(b),
+                _ => false,
+            },
+            SinkOut::Drained(d) => obs_seq_same(d, &pr.drained),
+            _ => true,
+        };
+        if !ok {
+            return stage_at(&q, n);
+        }
+    }
+    stage_at(p, p.ops.len())
 }
 
 /// Run every oracle on one pipe program.
@@ -278,6 +313,21 @@ pub fn check_pipe(p: &Pipe) -> (Vec<Violation>, RunStats) {
                         ),
                     });
                 }
+                if !bad && !o.plain && !o.capped {
+                    if let Some(l) = o.tl_len {
+                        if l != got {
+                            viol.push(Violation {
+                                props: vec!["C09"],
+                                oracle: "H1",
+                                stage: blame(p, cut, "H1"),
+                                detail: format!(
+                                    "after {cut} consumer steps (outermost stage {stage}) TrustedLen::len() = {l} but plain iteration yields {got} items (size_hint {:?})",
+                                    o.hint
+                                ),
+                            });
+                        }
+                    }
+                }
                 if cut > 0 && !bad {
                     if let Op::Wrap(stg) = &p.ops[cut - 1] {
                         let before = probes[cut - 1].drained.len();
@@ -325,15 +375,15 @@ pub fn check_pipe(p: &Pipe) -> (Vec<Violation>, RunStats) {
             st.consumer_ops += 1;
             let rem = probes[i].drained.len();
             match op {
-                Op::Next | Op::NextBack | Op::Nth(_) => {
+                Op::Next | Op::NextBack | Op::Nth(_) | Op::NthBack(_) => {
                     let got = full.get(pi).map(|x| x.is_some()).unwrap_or(false);
                     pi += 1;
                     if got {
                         pulled_some += 1;
-                        if matches!(op, Op::NextBack) {
+                        if matches!(op, Op::NextBack | Op::NthBack(_)) {
                             back_some += 1;
                         }
-                        if let Op::Nth(k) = op {
+                        if let Op::Nth(k) | Op::NthBack(k) = op {
                             st.items_pulled += *k as u64;
                         }
                         st.items_pulled += 1;
@@ -438,6 +488,39 @@ pub fn check_pipe(p: &Pipe) -> (Vec<Violation>, RunStats) {
         } else {
             match &p.terminal {
                 Terminal::Drain => {},
+                Terminal::Count | Terminal::Last | Terminal::ForEach => {
+                    st.executions += 1;
+                    st.hit("consuming_method_terminal");
+                    match commit(p, expected.len()) {
+                        Ok(c) => {
+                            let ok = match &c.sink {
+                                SinkOut::Counted(n) => *n == expected.len(),
+                                SinkOut::Last(l) => match (l, expected.last()) {
+                                    (None, None) => true,
+                                    (Some(a), Some(b)) => a.same(b),
+                                    _ => false,
+                                },
+                                SinkOut::Drained(d) => obs_seq_same(d, expected),
+                                _ => true,
+                            };
+                            if !ok {
+                                viol.push(Violation {
+                                    props: vec!["C09"],
+                                    oracle: "H1c",
+                                    stage: blame_terminal(p),
+                                    detail: format!(
+                                        "{} on the stream gives {:?}, plain next()-iteration yields {} items [{}]",
+                                        p.terminal.kind(),
+                                        c.sink,
+                                        expected.len(),
+                                        short(expected)
+                                    ),
+                                });
+                            }
+                        },
+                        Err(msg) => terminal_failure(&mut viol, &mut st, p, msg),
+                    }
+                },
                 Terminal::Drop => {
                     if !expected.is_empty() {
                         st.fault("early_drop");
